@@ -418,7 +418,7 @@ func TestC03(t *testing.T) {
 	rec.SetRule(decGenRule + "Oracle: both decoders (assembly in process, portable through the noasm twin process) return an error or 0 <= n <= len(dst), no panic or fault escapes, " +
 		"canaries intact. Non-trivial = the decoder gets past the first token into a match or an extended length; distinct by hash(src, len(dst), dict, placement).")
 	rec.Require("nontrivial", "src-or-dict/spare-capacity(read-outside-shows-as-a-difference)", "dict/touched-by-a-match", "dst/spare-capacity", "place/start", "place/end", "outcome/asm=ok", "outcome/asm=error", "outcome/noasm=ok", "outcome/noasm=error", "dst/room-after-output=00..07", "dst/room-after-output=16..23", "dst/room-after-output=40..47", "src/final-literals=00..07", "src/final-literals=16..23")
-	checkProp(t, "C03", "C03/decode", pick(30000, 1500000), drawDecCase, runC03)
+	checkProp(t, "C03", "C03/decode", pick(100000, 2500000), drawDecCase, runC03)
 }
 
 func TestC04(t *testing.T) {
@@ -428,7 +428,7 @@ func TestC04(t *testing.T) {
 		"Each case is decoded with dst pre-filled 0x00, 0xFF and pseudo-random; results must be identical. Both builds. Non-trivial = >= 1 match and one of {dictionary touched, overlap, " +
 		"extended length, offset at a boundary}; distinct by hash(block, dict, len(dst)).")
 	rec.Require("nontrivial", "dict/touched-by-a-match", "match/overlapping", "ref/OK", "ref/ERR/"+ref.EZeroOffset, "ref/ERR/"+ref.EOffsetBefore, "ref/ERR/"+ref.ETruncated, "ref/ERR/"+ref.EOutputTooBig)
-	checkProp(t, "C04", "C04/decode", pick(12000, 600000), drawDecCase, runC04)
+	checkProp(t, "C04", "C04/decode", pick(50000, 1200000), drawDecCase, runC04)
 }
 
 func TestC12(t *testing.T) {
@@ -436,5 +436,5 @@ func TestC12(t *testing.T) {
 	rec.SetRule(decGenRule + "Oracle: the assembly decoder (in process) and the portable decoder (noasm twin process, same case) give the same success-or-error outcome, the same n and " +
 		"the same dst[:n]. Non-trivial as C03.")
 	rec.Require("nontrivial", "agree/both-ok", "agree/both-error", "dict/touched-by-a-match")
-	checkProp(t, "C12", "C12/decode", pick(30000, 1500000), drawDecCase, runC12)
+	checkProp(t, "C12", "C12/decode", pick(100000, 2500000), drawDecCase, runC12)
 }
